@@ -11,6 +11,7 @@
 //!              --ops <file> --out <file> --stats <file.json>
 
 mod container;
+mod enumseq;
 mod exec;
 mod r#gen;
 mod proto;
@@ -340,6 +341,29 @@ fn main() -> ExitCode {
     }
 }
 
+/// `harness enum --kind K --depth D --max-cases N --seed S --ops f --out f --stats f`: all sequential histories up to depth D
+fn enum_cmd(flags: &HashMap<String, String>) -> Result<(), String> {
+    let (kind_s, kind) = flag_kind(flags)?;
+    let kind = kind.ok_or("enum needs one --kind")?;
+    let depth = flag_num(flags, "depth")? as usize;
+    let max_cases = flag_num(flags, "max-cases")?;
+    let seed = flag_num(flags, "seed")?;
+    let mut ops = open_out(flags, "ops")?;
+    let mut out = open_out(flags, "out")?;
+    let shard = flags.get("shard").map(|s| s.parse::<usize>().unwrap_or(0)).unwrap_or(0);
+    let of = flags.get("of").map(|s| s.parse::<usize>().unwrap_or(1)).unwrap_or(1);
+    let st = enumseq::enumerate(kind, &kind_s, depth, max_cases, seed, shard, of, &mut ops, &mut out).map_err(|e| e.to_string())?;
+    let json = format!(
+        "{{\"kind\": \"{kind_s}\", \"depth\": {depth}, \"shard\": {shard}, \"of\": {of}, \"cases\": {}, \"requests\": {}, \"truncated\": {}}}",
+        st.cases, st.requests, st.truncated
+    );
+    if let Some(p) = flags.get("stats") {
+        std::fs::write(p, &json).map_err(|e| e.to_string())?;
+    }
+    println!("{json}");
+    Ok(())
+}
+
 /// `harness stress --kind K --threads T --millis M --seed S --keys N`: prints one JSON line
 fn stress_cmd(flags: &HashMap<String, String>) -> Result<(), String> {
     let (kind_s, kind) = flag_kind(flags)?;
@@ -369,6 +393,7 @@ fn run(args: &[String], flags: &HashMap<String, String>) -> Option<Result<(), St
         "sgen" => sgen(flags),
         "sdfs" => sdfs(flags),
         "sdfs-gen" => sdfs_gen(flags),
+        "enum" => enum_cmd(flags),
         _ => return None,
     };
     Some(r)
